@@ -63,8 +63,8 @@ Proof.
   unfold cti_last. cbv zeta.
   generalize (@cti_loop R ROps q 0 {| c_sx := s0; c_sy := s0; c_sxx := s0; c_sxy := s0; c_syy := s0 |}).
   intros a. rewrite !sgtb_R.
-  set (vx := ssub (smul (sofnat n) (c_sxx a)) (ssq (c_sx a))).
-  set (vy := ssub (smul (sofnat n) (c_syy a)) (ssq (c_sy a))).
+  set (vx := ssub (smul (sofnat (length q)) (c_sxx a)) (ssq (c_sx a))).
+  set (vy := ssub (smul (sofnat (length q)) (c_syy a)) (ssq (c_sy a))).
   clearbody vx vy.
   destruct (Rltb s0 vx) eqn:Ex; cbn [andb]; [|eauto].
   destruct (Rltb s0 vy) eqn:Ey; [|eauto].
